@@ -1064,6 +1064,20 @@ func (fr *frame) runDefers(st *State) {
 }
 
 func (fr *frame) goStmt(x *ssa.Go, st *State) {
+	// assertions may be anchored at the spawn ("go <callee>:k"), with the arguments visible
+	c := x.Common()
+	if _, isB := c.Value.(*ssa.Builtin); !isB {
+		var args []Term
+		var argTypes []types.Type
+		for _, a := range c.Args {
+			args = append(args, fr.coerce(fr.val(a), sortOf(a.Type())))
+			argTypes = append(argTypes, a.Type())
+		}
+		anchor := fr.callAnchor(fr.anchorNameOf(c), x)
+		fr.callArgs, fr.callArgTypes = args, argTypes
+		fr.checkAsserts("go "+anchor, st)
+		fr.callArgs = nil
+	}
 	// The spawned goroutine is not interleaved; everything it can reach is
 	// treated as modified from here on.
 	fr.havocEverything(st, true, "go "+calleeName(x.Common()))
